@@ -117,16 +117,32 @@ func textOf(e r.Element) (out interface{}) {
 
 const iterProg = "输入甲\n令结果 = 【】\n以K、V遍历甲：\n    以结果（后增：【K，V】）\n输出结果\n"
 
+// the same walk, leaving every other pass through 继续循环 (after recording the pair): what a pass leaves with has no
+// influence on the key / index and the value of the passes after it
+const iterProgC = "输入甲\n令结果 = 【】\n令计 = 0\n以K、V遍历甲：\n    计 = 计 + 1\n    如果计 % 2 == 1：\n        以结果（后增：【K，V】）\n        继续循环\n    以结果（后增：【K，V】）\n输出结果\n"
+
 // the (key, value) sequence produced by the real evalIterateStmt over the real collection object
 func iterate(coll r.Element) obj {
-	var elem r.Element
-	var err error
-	hlib.CaptureStdout(func() {
-		z := exec.NewInterpreter("verif").SetExternalLibs([]*r.Library{libJson.Export(), libFile.Export()})
-		elem, err = z.LoadScript([]rune(iterProg)).Execute(r.ElementMap{"甲": coll})
-	})
+	run := func(prog string) (r.Element, error) {
+		var elem r.Element
+		var err error
+		hlib.CaptureStdout(func() {
+			z := exec.NewInterpreter("verif").SetExternalLibs([]*r.Library{libJson.Export(), libFile.Export()})
+			elem, err = z.LoadScript([]rune(prog)).Execute(r.ElementMap{"甲": coll})
+		})
+		return elem, err
+	}
+	elem, err := run(iterProg)
 	if err != nil {
 		return errRes(err)
+	}
+	elemC, errC := run(iterProgC)
+	if errC != nil {
+		return errRes(errC)
+	}
+	if elemC.String() != elem.String() {
+		// report the walk that differs from the plain one
+		return okRes(elemC)
 	}
 	return okRes(elem)
 }
